@@ -7,6 +7,7 @@ import (
 	"encoding/json"
 	"errors"
 	"io"
+	"strings"
 	"testing"
 
 	"github.com/wrgl/wrgl/pkg/ref"
@@ -15,6 +16,9 @@ import (
 type C11Plan struct {
 	Graph  GraphSpec `json:"graph"`
 	Tuples [][]int   `json:"tuples"` // inputs to SeekCommonAncestor
+	// Faults: store read errors; each is armed in turn for every query of FaultQ
+	Faults []*Fault `json:"faults,omitempty"`
+	FaultQ [][]int  `json:"fault_q,omitempty"` // [a,b] IsAncestorOf / [s] walk / [x,y,z..] with a leading -1: SeekCommonAncestor
 }
 
 func init() {
@@ -29,6 +33,36 @@ func init() {
 			}
 			g := GenGraph(r.Sub("graph"), n)
 			p := C11Plan{Graph: g}
+			if r.Chance(0.12) {
+				// a commit that lists one parent twice
+				for tries := 0; tries < 5; tries++ {
+					i := r.Intn(n)
+					if len(g.Parents[i]) > 0 {
+						g.Parents[i] = append(g.Parents[i], Pick(r, g.Parents[i]))
+						p.Graph = g
+						break
+					}
+				}
+			}
+			if r.Chance(0.3) {
+				for k := r.Range(1, 3); k > 0; k-- {
+					p.Faults = append(p.Faults, &Fault{Op: "get", Prefix: "com/", Nth: r.Range(1, 12)})
+				}
+				for k := r.Range(3, 10); k > 0; k-- {
+					switch r.Intn(3) {
+					case 0:
+						p.FaultQ = append(p.FaultQ, []int{r.Intn(n), r.Intn(n)})
+					case 1:
+						p.FaultQ = append(p.FaultQ, []int{r.Intn(n)})
+					default:
+						q := []int{-1}
+						for j := r.Range(2, 3); j > 0; j-- {
+							q = append(q, r.Intn(n))
+						}
+						p.FaultQ = append(p.FaultQ, q)
+					}
+				}
+			}
 			nt := 40
 			for i := 0; i < nt; i++ {
 				k := r.Range(2, 4)
@@ -180,6 +214,109 @@ func execC11(t *testing.T, raw json.RawMessage, res *Result) {
 			}
 		}
 	}
+	// ---- the same queries with one store read failing: an error, or the right answer
+	if len(p.Faults) > 8 || len(p.FaultQ) > 64 {
+		res.Invalid("faults")
+		return
+	}
+	for fi, f := range p.Faults {
+		for _, q := range p.FaultQ {
+			f.seen, f.Fired = 0, 0
+			st.Faults = []*Fault{f}
+			for _, x := range q {
+				if x < -1 || x >= n {
+					st.Faults = nil
+					res.Invalid("fault query index")
+					return
+				}
+			}
+			switch {
+			case len(q) == 2 && q[0] >= 0:
+				ok, err := ref.IsAncestorOf(st, sums[q[0]], sums[q[1]])
+				if err == nil && ok != anc[q[1]][q[0]] {
+					st.Faults = nil
+					res.Violate("ancestor-wrong-under-read-error", "fault %d (read %d of a commit fails, fired=%d): IsAncestorOf(c%d, c%d)=%v without an error, reachability says %v (parents %v)", fi, f.Nth, f.Fired, q[0], q[1], ok, anc[q[1]][q[0]], g.Parents)
+					return
+				}
+			case len(q) == 1 && q[0] >= 0:
+				qu, err := ref.NewCommitsQueue(st, [][]byte{sums[q[0]]})
+				if err != nil {
+					break
+				}
+				seen := map[int]int{}
+				failed := false
+				for steps := 0; steps <= 4*n+4; steps++ {
+					sum, _, err := qu.PopInsertParents()
+					if errors.Is(err, io.EOF) {
+						break
+					}
+					if err != nil {
+						failed = true
+						break
+					}
+					seen[idx[string(sum)]]++
+				}
+				if !failed {
+					for a := range anc[q[0]] {
+						if seen[a] != 1 {
+							st.Faults = nil
+							res.Violate("walk-wrong-under-read-error", "fault %d (read %d of a commit fails, fired=%d): the walk from c%d ended without an error but visited ancestor c%d %d times (parents %v)", fi, f.Nth, f.Fired, q[0], a, seen[a], g.Parents)
+							return
+						}
+					}
+				}
+			case len(q) >= 3 && q[0] == -1:
+				tp := q[1:]
+				in := make([][]byte, len(tp))
+				distinct := map[int]bool{}
+				for i, x := range tp {
+					if x < 0 {
+						st.Faults = nil
+						res.Invalid("fault query index")
+						return
+					}
+					in[i] = sums[x]
+					distinct[x] = true
+				}
+				if len(distinct) != len(tp) {
+					break
+				}
+				common := map[int]bool{}
+				for a := range anc[tp[0]] {
+					all := true
+					for _, x := range tp[1:] {
+						if !anc[x][a] {
+							all = false
+						}
+					}
+					if all {
+						common[a] = true
+					}
+				}
+				base, err := ref.SeekCommonAncestor(st, in...)
+				if err == nil {
+					if bi, ok := idx[string(base)]; !ok || !common[bi] {
+						st.Faults = nil
+						res.Violate("base-wrong-under-read-error", "fault %d: SeekCommonAncestor%v = c%d without an error, common ancestors are %v", fi, tp, bi, keysOf(common))
+						return
+					}
+				} else if f.Fired == 0 && len(common) > 0 {
+					st.Faults = nil
+					res.Violate("base-missing", "SeekCommonAncestor%v: %v", tp, err)
+					return
+				} else if f.Fired > 0 && len(common) > 0 && !errors.Is(err, ErrInjected) && !strings.Contains(err.Error(), ErrInjected.Error()) {
+					// "no common ancestor" although one exists and the only trouble was a failed read
+					st.Faults = nil
+					res.Violate("base-missing-under-read-error", "fault %d (fired=%d): SeekCommonAncestor%v reports %q although common ancestors exist (%v): the read error was taken for the end of history", fi, f.Fired, tp, err, keysOf(common))
+					return
+				}
+			}
+			if f.Fired > 0 {
+				res.fault("store_read_error", 1)
+			}
+		}
+	}
+	st.Faults = nil
 	res.stat("sim_steps", float64(w.Steps))
 	merges, inconsistent := 0, false
 	for i, ps := range g.Parents {
